@@ -97,6 +97,10 @@ def run(tier):
         leaves = [l.strip('"').split("|") for l in snd.out.splitlines() if l.startswith('"SND|')]
         true_l = [f for f in leaves if f[4] == "TRUE" and f[3] == "ok"]
         false_l = [f for f in leaves if f[4] == "FALSE" and f[3] == "ok"]
+        coll = [f for f in leaves if f[3] == "collision"]
+        if len(coll) * 5 > len(false_l) + len(coll):
+            raise vlib.ToolError("SoundnessMC: %d of %d false leaves are challenge collisions "
+                                 "(expected a few percent over F_97)" % (len(coll), len(false_l) + len(coll)))
         if not true_l or len(false_l) < 10:
             raise vlib.ToolError("SoundnessMC is vacuous: %d true / %d false leaves"
                                  % (len(true_l), len(false_l)))
@@ -110,7 +114,8 @@ def run(tier):
             "budget_5n_plus_6": 26,
             "forced_quotient_lengths_false": sorted({int(f[6]) for f in false_l}),
             "honest_quotient_lengths": sorted({int(f[6]) for f in true_l}),
-            "degenerate_challenge_samples": sum(1 for f in leaves if f[3] != "ok"),
+            "degenerate_challenge_leaves": sum(1 for f in leaves if f[3] == "degenerate"),
+            "early_challenge_collisions": len(coll),
         }
 
     env = {"LIFE_V2": 1 if thorough else 0, "LIFE_BIG": 1 if thorough else 0,
